@@ -219,4 +219,10 @@ def obligations(ctx: Ctx):
         obs.append(Ob(f"{P}.B1", "B", "generated documents with zones through parse, emit, seal, octave_validate, octave_write, octave_eject vs an independent fence scanner", FUNCS, C05_b.ob_b1, timeout=3000))
     except ImportError:
         pass
+    # the lenient writer's brace-for-angle pre-processor edits raw text: literal zones are outside its reach (shared with C07)
+    from props import C07 as _C07
+    from props import C07_b as _C07b
+
+    obs.append(Ob(f"{P}.P7.brace", "P", "brace repair of octave_write(lenient): the protected-range lookup answers 'inside some protected range' exactly, so text inside a literal zone is never rewritten (contract shared with C07.P9)", ["octave_mcp.mcp.write:WriteTool._repair_curly_brace_annotations"], _C07.ob_protected_lookup))
+    obs.append(Ob(f"{P}.B2.brace", "B", "octave_write(lenient) on documents with brace forms inside literal zones (after strings / comments, inside longer fences holding shorter backtick runs): zone bytes unchanged, no receipt", ["octave_mcp.mcp.write:WriteTool._repair_curly_brace_annotations"], _C07b.ob_b3))
     return obs
